@@ -715,7 +715,7 @@ Theorem elab_inv d n : elab d = Ok n -> Inv (b_models n).
 Proof.
   unfold elab, elab_stmts. intro H. apply bind_ok in H as [ss [H1 H]]. apply bind_ok in H as [s [H2 H3]].
   eapply finish_inv; [|exact H3].
-  apply (exec_all_start ss init_st s); [eapply classify_top_ok; exact H1|reflexivity|exact H2].
+  apply (exec_all_start ss init_st s); [eapply classify_top_ok; exact (classify_ok _ _ H1)|reflexivity|exact H2].
 Qed.
 
 (* ---------- no handler detaches a cable that still holds pins ---------- *)
